@@ -19,6 +19,9 @@ Per generated module set (check/props/schema_gen.py, plus the feature schemas be
           the module trees have been collected, loads an unrelated module, a rejected text and a missing file WITHOUT
           processing again: every lookup must return what it returned without the late load (positions recovered by
           pointer identity of the tree roots collected before) and the trees must be unchanged.
+  path    (implementation only) every set's lookups are repeated on a fresh module set in which only some texts are
+          parsed by the caller and the others lie on the search path (Modules.AddPath) and are found while the first and
+          only Process resolves imports and includes: same results, same trees.
   revisions (implementation only; the core model has no revisions) text-level family: module lib loaded in 2-3
           revisions with partly different children -- every revision with shorthand choice members (also in an rpc
           input) and augments of its own tree, so that EVERY loaded revision must have gone through Augment and
@@ -97,6 +100,20 @@ def feature_schemas():
                          ("/m:%s/m:reset/m:input" % tgt, [_lf("force")]), ("/m:%s/m:reset/m:output" % oth, [_lf("res")]),
                          ("/m:%s/m:how" % oth, [_lf("sh")])])
         out.append([m])
+    # augments that apply only after the first FixChoice (their paths cross an implicit case) and graft choices with
+    # shorthand members themselves; a third module grafts into those
+    a3 = _m("a", "a", "urn:a", body=[("container", "top", None, [("choice", "c", None, None, None, [("container", "x", None, [_lf("l")])]),
+                                                                 _lf("plain")]),
+                                     ("rpc", False, "r", [("choice", "ic", None, None, None, [("container", "il", None, [])])], None)],
+            augments=[("/a:top", [_lf("extra")])])
+    b3 = _m("b", "b", "urn:b", imports=[("a", "a")], body=[_lf("start")], augments=[
+        ("/a:top/a:c/a:x/a:x", [("choice", "d", None, None, None, [_lf("y"), ("container", "z", None, [_lf("w")]), ("case", "k", [_lf("kk")])]),
+                                _lf("fromb")]),
+        ("/a:r/a:input/a:ic/a:il/a:il", [("choice", "d2", None, None, None, [_lf("y2")])])])
+    c3 = _m("c", "c", "urn:c", imports=[("a", "a"), ("b", "b")], augments=[
+        ("/a:top/a:c/a:x/a:x/b:d", [_lf("late"), ("container", "lc", None, [("choice", "e", None, None, None, [_lf("deep")])])]),
+        ("/a:top/a:c/a:x/a:x/b:d/b:z/b:z", [_lf("third")])])
+    out.append([a3, b3, c3])
     h = _m("h", "h", "urn:h", body=[("grouping", 11, "gh", [("container", "slot", None, [])]), ("container", "p", None, []),
                                    ("container", "q", None, [])],
            augments=[("/h:p", [("uses", "gh")]), ("/h:q", [("uses", "gh")]), ("/h:q/h:slot", [_lf("late")])])
@@ -358,10 +375,31 @@ def queries_for(schema, dump, rnd, budget):
     return qs
 
 
-def go_find_case(schema, opts, qs):
+def path_only(schema, rnd):
+    """names of modules that can be left to the search path: reachable through imports/includes from the modules that
+    stay explicitly loaded"""
+    names = {m["name"] for m in schema}
+    edges = {m["name"]: [x for _, x in m["imports"] if x in names] + [x for x in m["includes"] if x in names] for m in schema}
+    wanted = {x for l in edges.values() for x in l}
+    explicit = {n for n in names if n not in wanted or rnd.random() < 0.25}
+    while True:
+        seen, todo = set(explicit), list(explicit)
+        while todo:
+            for x in edges[todo.pop()]:
+                if x not in seen:
+                    seen.add(x)
+                    todo.append(x)
+        missing = sorted(names - seen)
+        if not missing:
+            break
+        explicit.add(missing[0])
+    return names - explicit
+
+
+def go_find_case(schema, opts, qs, on_path=()):
     toks = ["find17", opts, str(len(schema))]
     for m in schema:
-        toks += [sg.hx(m["name"] + ".yang"), sg.hx(sg.render_module(m))]
+        toks += [("@" if m["name"] in on_path else "") + sg.hx(m["name"] + ".yang"), sg.hx(sg.render_module(m))]
     toks.append(str(len(qs)))
     for x in qs:
         mn, st = x["go"]
@@ -470,6 +508,32 @@ def check_batch(res, schemas, rnd, budget, stats):
             r["modules"] = [m for m in r.get("modules") or [] if not m["name"].startswith("zz-late-")]
         if sg.canon_go(json.dumps(lj))[1] != sg.canon_go(pj[2])[1] and bad < 2:
             res.violation("the module trees changed by a late Parse/Read without Process", rep)
+    # ... and on a fresh set where only some modules are loaded by the caller and the others are found on the search
+    # path while the first (and only) Process resolves imports and includes
+    onp = [sorted(path_only(sc, rnd)) for sc, _, _ in work]
+    pathrun = lib.run_go([go_find_case(sc, "-", qs, set(o)) for (sc, qs, _), o in zip(work, onp)])
+    for (sc, qs, _), pj, o, pline in zip(work, parsed, onp, pathrun):
+        if pj is None or not o:
+            continue
+        rep = dict(kind="find17", schema=sc, queries=[dict(x, go=list(x["go"]), ml=list(x["ml"])) for x in qs], on_path=o)
+        if not pline.startswith("{"):
+            res.violation("find17 (modules on the search path) crashed on the implementation: %s" % pline[:300], rep)
+            continue
+        lj = json.loads(pline)
+        if lj["runs"][-1]["errors"] or any(l.startswith("err") for l in lj["loads"]):
+            res.violation("a module set that processes cleanly when every text is parsed does not when %s are found on the "
+                          "search path: %s" % (o, (lj["runs"][-1]["errors"] or lj["loads"])[:2]), rep)
+            continue
+        stats["path_sets"] += 1
+        lres = [r.split("|", 1)[1] for r in lj["find"]]
+        bad = 0
+        for x, g, l in zip(qs, pj[1], lres):
+            if g != l and bad < 2:
+                bad += 1
+                res.violation("with %s found on the search path, Find(%r) from %s returned %s; with every text parsed %s"
+                              % (o, x["path"], x["go"], l, g), dict(rep, query=dict(x, go=list(x["go"]), ml=list(x["ml"])), impl=l))
+        if sg.canon_go(pline)[1] != sg.canon_go(pj[2])[1] and bad < 2:
+            res.violation("the module trees differ when %s are found on the search path instead of parsed" % o, rep)
     for (sc, qs, canon0), pj, mline, mcase in zip(work, parsed, ml, ml_cases):
         if pj is None:
             continue
@@ -624,8 +688,48 @@ def check_revisions(res, rnd, tier, stats):
                               dict(kind="revisions", case=line, desc=desc, want=want))
 
 
-def gen_schemas(rnd, n):
+def late_augment_schemas(rnd, n):
+    """chains of augments over several rounds of {augment, FixChoice}: each link's target lies inside a shorthand member
+    of a choice that the link before grafted (so it exists only after the next FixChoice) and grafts a choice with
+    shorthand members itself"""
     out = []
+    for _ in range(n):
+        uid = [0]
+
+        def nm(stem):
+            uid[0] += 1
+            return "%s%d" % (stem, uid[0])
+
+        def choice():
+            cont = nm("sc")
+            members = [("container", cont, rnd.choice([None, None, False]), [_lf(nm("l"))])]
+            for _ in range(rnd.randint(0, 2)):
+                members.append(rnd.choice([_lf(nm("sl")), ("case", nm("cs"), [_lf(nm("cl"))]),
+                                           ("list", nm("li"), None, None, None, None, [_lf(nm("k"))])]))
+            rnd.shuffle(members)
+            return ("choice", nm("ch"), None, None, None, members), cont
+        ch, cont = choice()
+        in_rpc = rnd.random() < 0.3
+        base = _m("m0", "m0", "urn:m0", body=[("rpc", False, "op", [ch], None)] if in_rpc else [("container", "top", None, [ch, _lf("plain")])])
+        path = (["op", "input"] if in_rpc else ["top"]) + [ch[1], cont, cont]
+        mods = [base]
+        for i in range(1, rnd.randint(2, 4)):
+            ch, cont2 = choice()
+            m = _m("m%d" % i, "m%d" % i, "urn:m%d" % i, imports=[("m%d" % j, "m%d" % j) for j in range(i)], body=[_lf(nm("start"))])
+            body = [ch] + ([_lf(nm("pl"))] if rnd.random() < 0.5 else [])
+            m["augments"].append(("/" + "/".join("m0:" + x for x in path), body))
+            if rnd.random() < 0.5:        # a shorthand member grafted into the choice the link before grafted
+                m["augments"].append(("/" + "/".join("m0:" + x for x in path[:-2]), [_lf(nm("into"))]))
+            mods.append(m)
+            path = path + [ch[1], cont2, cont2]
+        if rnd.random() < 0.5:
+            mods.reverse()
+        out.append(mods)
+    return out
+
+
+def gen_schemas(rnd, n):
+    out = late_augment_schemas(rnd, max(10, n // 10))
     for i in range(n):
         r = rnd.random()
         if r < 0.5:
@@ -641,7 +745,7 @@ def run(res, tier, seed, proof):
     rnd = random.Random(seed)
     n = 140 if tier == "quick" else 2500
     budget = 330 if tier == "quick" else 600
-    stats = dict(status={}, impl_lookups=0, features={}, queries={}, tied=0, revision_sets=0, revision_lookups=0, late_sets=0)
+    stats = dict(status={}, impl_lookups=0, features={}, queries={}, tied=0, revision_sets=0, revision_lookups=0, late_sets=0, path_sets=0)
     schemas = feature_schemas() + gen_schemas(rnd, n)
     for i in range(0, len(schemas), 400):
         check_batch(res, schemas[i:i + 400], rnd, budget, stats)
@@ -657,7 +761,7 @@ def run(res, tier, seed, proof):
         exhaustive=False, module_sets=len(schemas), clean=clean, clean_ratio=round(clean / max(1, len(schemas)), 3),
         distribution=dict(status=stats["status"], features=stats["features"], queries=stats["queries"],
                           impl_pointer_lookups=stats["impl_lookups"], tied_sets=stats["tied"],
-                          late_load_sets=stats["late_sets"], pinned_revision_sets=stats["revision_sets"], pinned_revision_lookups=stats["revision_lookups"]),
+                          late_load_sets=stats["late_sets"], search_path_sets=stats["path_sets"], pinned_revision_sets=stats["revision_sets"], pinned_revision_lookups=stats["revision_lookups"]),
         samples=[sg.render_module(m)[:300] for m in schemas[2][:2]],
     )
     if clean * 10 < len(schemas) * 6:
@@ -699,6 +803,15 @@ def replay(rep, res):
     if rep.get("queries"):
         qs = [dict(x, go=(x["go"][0], tuple(tuple(s) for s in x["go"][1])), ml=(x["ml"][0], tuple(tuple(s) for s in x["ml"][1])))
               for x in rep["queries"]]
+        if rep.get("on_path"):
+            g0 = lib.run_go([go_find_case(sc, "-", qs), go_find_case(sc, "-", qs, set(rep["on_path"]))])
+            a, b = (json.loads(x)["find"] if x.startswith("{") else None for x in g0)
+            for x, r1, r2 in zip(qs, a or [], b or []):
+                if r1 != r2:
+                    print("on the search path %s: query %s from %s: parsed=%s path=%s" % (rep["on_path"], x["path"], x["go"], r1, r2))
+                    rc = 1
+            if a is None or b is None or len(a) != len(b):
+                rc = 1
         if rep.get("late"):
             g0 = lib.run_go([go_find_case(sc, "-", qs), go_find_case(sc, "l", qs)])
             a, b = (json.loads(x)["find"] if x.startswith("{") else None for x in g0)
